@@ -22,7 +22,10 @@ const (
 	protocolOfflineID                  = "cmp/presign-offline"
 	protocolOnlineID                   = "cmp/presign-online"
 	protocolFullID                     = "cmp/presign-full"
-	protocolOfflineRounds round.Number = 7
+	// a successful offline presigning ends after round 7, but the identification of a party whose χ
+	// contribution is inconsistent (abort2) speaks in round 8: the handler must expect that round too,
+	// otherwise it finalizes abort2 without having received any message (and dereferences missing data)
+	protocolOfflineRounds round.Number = 8
 	protocolFullRounds    round.Number = 8
 )
 
